@@ -58,12 +58,42 @@ def saturate(rep, prog, rule):
         tr = deps.Tracer(prog, width)
         s = tr.sym(f)
         bad = None
+        maybe = None
+        top = (1 << width) - 1
         for (bb, j, rv, whole) in f.defs().get(0, []):
-            p = tr.unsaturated(f, s.rvalue(rv, bb))
-            if p is not None:
+            e = s.rvalue(rv, bb)
+            p = tr.unsaturated(f, e)
+            if p is None:
+                continue
+            # `if q > MAX { return MAX } q as T`: the truncating return is on the branch where the
+            # value was compared with the maximum
+            inner = e
+            while inner[0] == "cast":
+                inner = inner[2]
+            bounded = False
+            for cond, val in s.facts_at(bb):
+                if cond[0] != "bin" or cond[1] not in ("Gt", "Ge", "Lt", "Le"):
+                    continue
+                a_, b_ = cond[2], cond[3]
+                while a_[0] == "cast":
+                    a_ = a_[2]
+                while b_[0] == "cast":
+                    b_ = b_[2]
+                for (op, l, r) in ((cond[1], a_, b_), ({"Gt": "Lt", "Lt": "Gt", "Ge": "Le", "Le": "Ge"}[cond[1]], b_, a_)):
+                    if l == inner and r[0] == "const" and isinstance(r[1], int):
+                        if (op == "Gt" and val is False and r[1] <= top) or \
+                                (op == "Ge" and val is False and r[1] <= top + 1) or \
+                                (op == "Le" and val is True and r[1] <= top) or \
+                                (op == "Lt" and val is True and r[1] <= top + 1):
+                            bounded = True
+                        else:
+                            maybe = fmt(cond)
+            if not bounded:
                 bad = p
         if bad is None:
-            rep.ok(rule, name, f.loc, "returns through min(.., %d)" % ((1 << width) - 1))
+            rep.ok(rule, name, f.loc, "returns through min(.., %d) or on a branch bounded by it" % top)
+        elif maybe:
+            rep.unk(rule, name, f.loc, "%s returns %s on a branch guarded by %s" % (name, " <- ".join(bad[-4:]), maybe[:60]))
         else:
             rep.bad(rule, name + "|unsaturated", f.loc, "%s returns %s without clipping to %d bits"
                     % (name, " <- ".join(bad[-6:]), width))
